@@ -20,6 +20,8 @@ def run(ck):
     import allmydata.mutable.publish as publish_mod
     default_seg = publish_mod.DEFAULT_MUTABLE_MAX_SEGMENT_SIZE
     real_os = publish_mod.os
+    from vf.checks._mut import virtual_time_on
+    undo_time = virtual_time_on()
     ck.rule = ("history = (format, k<=N<=10, 3..12 servers, 1..6 published versions); composition = per-server state "
                "(snapshot of version j | empty | unreachable | erroring | answers n-th query from snapshot j') from a "
                "directed or random family; operations = two-step read, download_best_version, overwrite by fresh "
@@ -46,6 +48,7 @@ def run(ck):
     finally:
         publish_mod.DEFAULT_MUTABLE_MAX_SEGMENT_SIZE = default_seg
         publish_mod.os = real_os
+        undo_time()
     ck.observe("eventual-exceptions", len(env.evq.exceptions))
     ck.require_monitor("publish-seqnum-above-survey", "read-returns-best-located", "read-keeps-searching-on-newer-evidence")
     ck.require_reach("publish-saw-unrecoverable-newer-version", "read-with-two-recoverable-versions",
